@@ -898,6 +898,9 @@ def gen_progspec(rng, spec, n_progs=(1, 5)):
             "capacity_constraint": None,
             "saturation": None,
         }
+        extra = [c["name"] for c in spec["comps"] if c["kind"] in ("sink", "junc")]
+        if extra and rng.random() < 0.15:
+            pr["target_comps"].append(str(_choice(rng, extra)))  # (a program may list a sink or a junction among its target compartments)
         if rng.random() < 0.3:
             pr["capacity_constraint"] = {"series": _series(rng, years, lambda: 10 ** rng.uniform(0, 4)), "units": "people/year" if rng.random() < 0.6 else "people"}
         if rng.random() < 0.3:
